@@ -912,6 +912,18 @@ func runC14(run *Run, replay string) Spec {
 					} `json:"input"`
 				} `json:"violation"`
 			}
+			var fs struct {
+				Violation struct {
+					Input struct {
+						Case *c14SubCase `json:"case"`
+					} `json:"input"`
+				} `json:"violation"`
+			}
+			if json.Unmarshal(b, &fs) == nil && fs.Violation.Input.Case != nil && fs.Violation.Input.Case.Subscription {
+				c14SubCheck(run, fs.Violation.Input.Case)
+				run.Count("replay")
+				return spec
+			}
 			if json.Unmarshal(b, &f) == nil && f.Violation.Input.Case != nil {
 				c14Check(run, f.Violation.Input.Case)
 				run.Count("replay")
@@ -934,6 +946,18 @@ func runC14(run *Run, replay string) Spec {
 					continue
 				}
 				r := subRng(run.Seed, k)
+				if k%5 == 4 {
+					// a subscription whose updates need nested fetches (c14s.go)
+					if ls, err := c14SubLayout(); err == nil {
+						sc := c14GenSubCase(r, ls)
+						run.SetCurrent(w, sc)
+						c14SubCheck(run, sc)
+						run.Count(sc.Operation + jsonStr(sc.Denied) + jsonStr(sc.Universe))
+					} else {
+						run.Violate(Violation{Kind: "oracle", Clause: "layout_builds", Detail: err.Error()}, "")
+					}
+					continue
+				}
 				u := fedL1Universe(r)
 				c := &c14Case{Layout: "L1M", Universe: u}
 				if r.Intn(4) == 0 {
